@@ -57,6 +57,7 @@ func runC02(c *Ctx, r *Rec) {
 	}
 	searchFn := c.funcOf(search)
 
+	checkReceiverWrites(c, r, "D1-receiver-writes-persist", set)
 	// ---- D1 single gate + edge discipline
 	allowed := map[string]string{"AddValue": "InsertValue", "RemoveValue": "RemoveValue", "RemoveAll": "RemoveAll"}
 	for _, name := range sortedKeys(ms) {
@@ -214,6 +215,19 @@ func runC02(c *Ctx, r *Rec) {
 	}
 	r.floor("D2-one-order", 4)
 
+	// ---- D5 bulk operations are folds of the single-value gates
+	for _, b := range [][2]string{{"AddValues", "AddValue"}, {"RemoveValues", "RemoveValue"}} {
+		if fd := ms[b[0]]; fd != nil {
+			bad := bulkFold(c, info, fd, b[1], true)
+			r.check(bad == "", "D5-bulk-fold", c.fdName(fd), c.pos(fd.Pos()), "applies "+b[1]+" to every element of the operand", bad)
+		}
+	}
+	if fd := c.methodsOf(cls)["MakeFromSequence"]; fd != nil {
+		bad := bulkFold(c, info, fd, "AddValue", false)
+		r.check(bad == "", "D5-bulk-fold", c.fdName(fd), c.pos(fd.Pos()), "adds every element of the source", bad)
+	}
+	r.floor("D5-bulk-fold", 3)
+
 	// ---- D3 binary search
 	checkBinarySearch(c, r, info, set, search, storage, collF)
 
@@ -228,7 +242,7 @@ func runC02(c *Ctx, r *Rec) {
 			checkLoops(c, r, "D4-loop-progress", m[name], exempt)
 		}
 	}
-	r.floor("D4-loop-progress", 7)
+	r.floor("D4-loop-progress", 1)
 }
 
 func (r *Rec) hasOK(rule string) bool {
